@@ -38,9 +38,15 @@ Nested == { <<"nested-from", <<[m |-> "from_", src |-> "Q6"], [m |-> "select", t
                              [m |-> "having", crit |-> [k |-> "bin", op |-> "OR", l |-> Gt([k |-> "call", f |-> "SUM", args |-> <<Fld("T1", "b")>>], Num("1")), r |-> Cmp(Fld("T1", "a"), Num("2"))]]>> >>,
             <<"distinct", <<From, Sel, [m |-> "distinct"]>> >>,
             <<"param-values", <<From, Sel, [m |-> "where", crit |-> Cmp(Fld("T1", "b"), Num("5"))], [m |-> "where", crit |-> Cmp(Fld("T1", "c"), [k |-> "str", n |-> "x"])]>> >> }
+\* data-modifying statements with RETURNING (PostgreSQL): bodies of a CTE only
+Dml == { <<"dml-insert-returning", <<[m |-> "into", src |-> "T1"], [m |-> "insert", row |-> <<Num("1"), Num("2")>>], [m |-> "returning", terms |-> <<Fld("T1", "a")>>]>> >>,
+         <<"dml-delete-returning", <<From, [m |-> "delete"], [m |-> "where", crit |-> Cmp(Fld("T1", "b"), Num("1"))], [m |-> "returning", terms |-> <<Fld("T1", "a"), Fld("T1", "b")>>]>> >>,
+         <<"dml-update-returning", <<[m |-> "update", src |-> "T1"], [m |-> "set", col |-> "b", val |-> Num("2")], [m |-> "returning", terms |-> <<Fld("T1", "a")>>]>> >> }
 VARIABLES inner, pos
-Init == /\ pos \in Positions
-        /\ inner \in UNION {ClauseOf(t) : t \in AliasedTerms} \cup Nested
+Init == \/ /\ pos \in Positions
+           /\ inner \in UNION {ClauseOf(t) : t \in AliasedTerms} \cup Nested
+        \/ /\ pos \in {"cte", "cte-joined"}
+           /\ inner \in Dml
 Next == UNCHANGED <<inner, pos>>
 Emit == PrintT("H " \o ToJson([clause |-> inner[1], hist |-> inner[2], pos |-> pos]))
 =============================================================================
